@@ -273,7 +273,7 @@ class Universe(object):
 
 def build_universe(v, n_docs=1, n_secs=3, n_props=0, name_len=1,
                    id_names=True, sec_types=("t",), name_alphabet=None, name_minlen=0,
-                   name_pool=None):
+                   name_pool=None, one_other_type=False):
     """
     Append fresh detached objects in index order; the parent of object i is
     'detached' or any earlier container.  Every ordered forest with unique
@@ -296,6 +296,8 @@ def build_universe(v, n_docs=1, n_secs=3, n_props=0, name_len=1,
     uni = Universe()
     for _ in range(n_docs):
         uni.docs.append(odml.Document())
+    # at most one Section of another type (name clashes are by name only, contains()/merge match name AND type)
+    other_typed = v.choice("othertype", n_secs + 1) - 1 if one_other_type else -1
     for i in range(n_secs):
         if name_pool is not None:
             name = v.pick("sname%d" % i, name_pool)
@@ -304,6 +306,8 @@ def build_universe(v, n_docs=1, n_secs=3, n_props=0, name_len=1,
         else:
             name = sym_name(v, "sname%d" % i, name_len, uni.secs if id_names else (), minlen=name_minlen)
         stype = sec_types[0] if len(sec_types) == 1 else v.pick("stype%d" % i, sec_types)
+        if i == other_typed:
+            stype = "u"
         sec = odml.Section(name=name, type=stype)
         conts = uni.containers
         where = shape[i]
